@@ -264,7 +264,7 @@ pub fn c08(rep: &mut Report, cfg: &Cfg) {
     // (byte / word view, ADDS, INC), access again with the same mode, register and displacement.
     // Every step is judged in lock step from the real machine's state, so an effective address
     // derived from stale state shows at the second access.
-    let chains = cfg.share(cfg.n(4_000, 800_000));
+    let chains = cfg.share(cfg.n(4_000, 120_000));
     for _ in 0..chains {
         let seed = rng.next();
         chain_session(rep, seed, false);
